@@ -1,6 +1,6 @@
 (* C01 -- proofs about the slim / native model (Model/C01.v). Everything is polymorphic in the value
    type and closed under the global context. *)
-From Coq Require Import List Arith Bool Lia Permutation Sorting.Sorted.
+From Coq Require Import List Arith Bool Lia Permutation Sorting.Sorted ZArith.
 From PAV Require Import Model.C01.
 Import ListNotations.
 
@@ -493,3 +493,269 @@ Proof.
   - lia.
 Qed.
 End P1.
+
+
+(* ================================================================== phase 2: objects and masks with a history *)
+Section P2.
+Context {A : Type} (zero : A).
+Notation grid := (list (list A)).
+
+Lemma slim_row_map (g : A -> A) r : forall v, slim_row r (map g v) = map g (slim_row r v).
+Proof. induction r as [|b r IH]; intros [|a v]; cbn; auto. destruct b; cbn; now rewrite IH. Qed.
+Lemma slim_from_map (g : A -> A) (m : mask) : forall n : grid, slim_from m (map (map g) n) = map g (slim_from m n).
+Proof.
+  induction m as [|r m IH]; intros [|v n]; cbn; auto. now rewrite map_app, slim_row_map, IH.
+Qed.
+Lemma map_map_rect (g : A -> A) (n : grid) H W : rectb H W n = true -> rectb H W (map (map g) n) = true.
+Proof.
+  intros Hn. apply rectb_spec in Hn. destruct Hn as [L R]. apply rectb_spec. split; [now rewrite map_length|].
+  intros r Hr. apply in_map_iff in Hr. destruct Hr as [r' [E Hin]]. subst r. rewrite map_length. auto.
+Qed.
+
+(* masked entries of a native array are never gathered *)
+Lemma slim_from_zero_masked (m : mask) (n : grid) H W :
+  rectb H W m = true -> rectb H W n = true -> 0 < H -> slim_from m (zero_masked zero m n) = slim_from m n.
+Proof.
+  intros Hm Hn HH. pose proof (construct_from_native zero m n H W false Hm Hn HH) as [E _]. cbn [convert to_slim] in E.
+  rewrite E. symmetry. apply (slim_is_rowmajor_gather zero m n H W Hm Hn).
+Qed.
+Lemma zero_masked_idem (m : mask) (n : grid) H W :
+  rectb H W m = true -> rectb H W n = true -> 0 < H ->
+  zero_masked zero m (zero_masked zero m n) = zero_masked zero m n.
+Proof.
+  intros Hm Hn HH. pose proof (zero_masked_rect zero m n H W Hm Hn) as Hz.
+  rewrite <- (native_slim_roundtrip zero m (zero_masked zero m n) H W Hm Hz HH).
+  rewrite (slim_from_zero_masked m n H W Hm Hn HH). apply (native_slim_roundtrip zero m n H W Hm Hn HH).
+Qed.
+Lemma slim_from_length (m : mask) (n : grid) H W :
+  rectb H W m = true -> rectb H W n = true -> length (slim_from m n) = count m.
+Proof. intros Hm Hn. rewrite (slim_is_rowmajor_gather zero m n H W Hm Hn). now rewrite map_length. Qed.
+
+(* ---- what is read from an object whose stored array is ANY well-shaped array (e.g. the result of arithmetic) *)
+Theorem obs_of_stored_native (m : mask) (n : grid) H W :
+  rectb H W m = true -> rectb H W n = true -> 0 < H ->
+  obs_slim zero m (Native n) = map (get2 zero n) (native_for_slim m) /\
+  obs_native zero m (Native n) = zero_masked zero m n.
+Proof.
+  intros Hm Hn HH. unfold obs_slim, obs_native, acc_slim, acc_native. split.
+  - apply (construct_from_native zero m n H W false Hm Hn HH).
+  - apply (construct_from_native zero m n H W true Hm Hn HH).
+Qed.
+Theorem obs_of_stored_slim (m : mask) (s : list A) :
+  obs_slim zero m (Slim s) = s /\ obs_native zero m (Slim s) = native_from zero m s.
+Proof. split; reflexivity. Qed.
+
+(* the native reading is always the scatter of the slim reading: with native_at_kth_unmasked / native_at_masked this
+   says: slim value k at the k-th unmasked pixel, zero at every masked pixel, whatever the stored array holds there *)
+Theorem obs_native_is_scatter_of_obs_slim (m : mask) (f : form) H W :
+  rectb H W m = true -> 0 < H -> wfb m H W f = true ->
+  obs_native zero m f = native_from zero m (obs_slim zero m f) /\ length (obs_slim zero m f) = count m.
+Proof.
+  intros Hm HH Hf. destruct f as [s|n]; cbn [wfb] in Hf.
+  - apply Nat.eqb_eq in Hf. split; [reflexivity | exact Hf].
+  - destruct (obs_of_stored_native m n H W Hm Hf HH) as [Es En]. rewrite Es, En. split.
+    + rewrite <- (slim_is_rowmajor_gather zero m n H W Hm Hf). symmetry.
+      apply (native_slim_roundtrip zero m n H W Hm Hf HH).
+    + now rewrite map_length.
+Qed.
+Theorem obs_native_masked_is_zero (m : mask) (f : form) H W p :
+  rectb H W m = true -> 0 < H -> wfb m H W f = true -> mget m p = true -> get2 zero (obs_native zero m f) p = zero.
+Proof.
+  intros Hm HH Hf Hp. destruct (obs_native_is_scatter_of_obs_slim m f H W Hm HH Hf) as [E _]. rewrite E.
+  apply (native_at_masked zero m _ H W p Hm HH Hp).
+Qed.
+Theorem obs_native_at_kth_unmasked (m : mask) (f : form) H W k d :
+  rectb H W m = true -> 0 < H -> wfb m H W f = true -> k < count m ->
+  get2 zero (obs_native zero m f) (nth k (native_for_slim m) d) = nth k (obs_slim zero m f) zero.
+Proof.
+  intros Hm HH Hf Hk. destruct (obs_native_is_scatter_of_obs_slim m f H W Hm HH Hf) as [E L]. rewrite E.
+  apply (native_at_kth_unmasked zero m _ H W k d Hm HH L Hk).
+Qed.
+
+(* ---- constructing / re-reading does not change what is read (accessor chains, a new object from an old one) *)
+Lemma convert_wf (m : mask) (f : form) sn H W :
+  rectb H W m = true -> 0 < H -> wfb m H W f = true -> wfb m H W (convert zero m f sn) = true.
+Proof.
+  intros Hm HH Hf. destruct f as [s|n], sn; cbn [convert wfb] in *; auto.
+  - apply (native_from_rect zero m s H W Hm HH).
+  - apply (zero_masked_rect zero m n H W Hm Hf).
+  - apply Nat.eqb_eq. apply (slim_from_length m _ H W Hm). apply (zero_masked_rect zero m n H W Hm Hf).
+Qed.
+Theorem obs_of_convert (m : mask) (f : form) sn H W :
+  rectb H W m = true -> 0 < H -> wfb m H W f = true ->
+  obs_slim zero m (convert zero m f sn) = obs_slim zero m f /\
+  obs_native zero m (convert zero m f sn) = obs_native zero m f.
+Proof.
+  intros Hm HH Hf. destruct f as [s|n]; cbn [wfb] in Hf.
+  - apply Nat.eqb_eq in Hf. destruct sn; cbn [convert]; [|split; reflexivity].
+    pose proof (native_from_rect zero m s H W Hm HH) as Hr.
+    destruct (obs_of_stored_native m _ H W Hm Hr HH) as [Es En]. rewrite Es, En. cbn [obs_slim obs_native acc_slim acc_native convert to_slim to_native].
+    split.
+    + rewrite <- (slim_is_rowmajor_gather zero m _ H W Hm Hr). apply (slim_native_roundtrip zero m s H W Hm HH Hf).
+    + rewrite <- (native_slim_roundtrip zero m _ H W Hm Hr HH). now rewrite (slim_native_roundtrip zero m s H W Hm HH Hf).
+  - pose proof (zero_masked_rect zero m n H W Hm Hf) as Hz.
+    unfold obs_slim, obs_native, acc_slim, acc_native. destruct sn; cbn [convert to_slim to_native].
+    + split; [| apply (zero_masked_idem m n H W Hm Hf HH)].
+      now rewrite (zero_masked_idem m n H W Hm Hf HH).
+    + split; [reflexivity|].
+      rewrite (native_slim_roundtrip zero m _ H W Hm Hz HH). apply (zero_masked_idem m n H W Hm Hf HH).
+Qed.
+
+(* ---- elementwise arithmetic on the stored array commutes with the slim reading; the native reading is re-zeroed *)
+Theorem obs_of_fmap (g : A -> A) (m : mask) (f : form) H W :
+  rectb H W m = true -> 0 < H -> wfb m H W f = true ->
+  obs_slim zero m (fmap g f) = map g (obs_slim zero m f) /\
+  obs_native zero m (fmap g f) = zero_masked zero m (map (map g) (obs_native zero m f)).
+Proof.
+  intros Hm HH Hf. destruct f as [s|n]; cbn [wfb fmap] in *.
+  - apply Nat.eqb_eq in Hf. split; [reflexivity|].
+    cbn [obs_native acc_native convert to_native].
+    pose proof (native_from_rect zero m s H W Hm HH) as Hr.
+    rewrite <- (native_slim_roundtrip zero m _ H W Hm (map_map_rect g _ H W Hr) HH).
+    now rewrite slim_from_map, (slim_native_roundtrip zero m s H W Hm HH Hf).
+  - pose proof (map_map_rect g n H W Hf) as Hg. pose proof (zero_masked_rect zero m n H W Hm Hf) as Hz.
+    unfold obs_slim, obs_native, acc_slim, acc_native. cbn [convert to_slim to_native]. split.
+    + rewrite (slim_from_zero_masked m _ H W Hm Hg HH), slim_from_map.
+      now rewrite (slim_from_zero_masked m n H W Hm Hf HH).
+    + rewrite <- (native_slim_roundtrip zero m _ H W Hm Hg HH).
+      rewrite <- (native_slim_roundtrip zero m _ H W Hm (map_map_rect g _ H W Hz) HH).
+      now rewrite !slim_from_map, (slim_from_zero_masked m n H W Hm Hf HH).
+Qed.
+
+(* ---- an in-place assignment to a MASKED entry of a natively stored array is never visible *)
+Lemma in_upd {B} (l : list B) i v x : In x (upd l i v) -> (i < length l /\ x = v) \/ In x l.
+Proof.
+  revert i. induction l as [|a l IH]; intros [|i] Hin; cbn in *; auto.
+  - destruct Hin as [E|Hin]; [left; split; [lia | auto] | right; auto].
+  - destruct Hin as [E|Hin]; [right; auto|]. destruct (IH i Hin) as [[Hl E]|Hr]; [left; split; [lia|auto] | right; auto].
+Qed.
+Lemma upd2_rect (n : grid) p v H W : rectb H W n = true -> rectb H W (upd2 n p v) = true.
+Proof.
+  intros Hn. pose proof Hn as Hn'. apply rectb_spec in Hn'. destruct Hn' as [L R]. apply rectb_spec. split.
+  - now rewrite upd2_rows.
+  - intros r Hr. unfold upd2 in Hr. apply in_upd in Hr. destruct Hr as [[Hl E]|Hr]; auto.
+    subst r. rewrite upd_length. apply R. now apply nth_In.
+Qed.
+Theorem set_masked_entry_invisible (m : mask) (n : grid) p v H W :
+  rectb H W m = true -> rectb H W n = true -> 0 < H -> mget m p = true ->
+  obs_slim zero m (Native (upd2 n p v)) = obs_slim zero m (Native n) /\
+  obs_native zero m (Native (upd2 n p v)) = obs_native zero m (Native n).
+Proof.
+  intros Hm Hn HH Hp. pose proof (upd2_rect n p v H W Hn) as Hu.
+  assert (E : zero_masked zero m (upd2 n p v) = zero_masked zero m n).
+  { apply (grid_ext zero _ _ H W); try (apply zero_masked_rect; assumption).
+    intros q Hy Hx. rewrite !(get2_zero_masked zero m _ H W) by assumption.
+    destruct (mget m q) eqn:Eq; [reflexivity|]. apply get2_upd2_other. intro; subst q. congruence. }
+  unfold obs_slim, obs_native, acc_slim, acc_native. cbn [convert to_slim to_native]. now rewrite E.
+Qed.
+
+(* ---- any history: every reading satisfies the invariant *)
+Lemma step_wf (m : mask) (f : form) o H W :
+  rectb H W m = true -> 0 < H -> wfb m H W f = true -> hop_ok m H W o = true -> wfb m H W (step zero m f o) = true.
+Proof.
+  intros Hm HH Hf Ho. destruct o as [g|f'|f' sn|k i j v| |]; cbn [step hop_ok] in *; auto.
+  - destruct f as [s|n]; cbn [fmap wfb] in *; [now rewrite map_length | now apply map_map_rect].
+  - now apply convert_wf.
+  - destruct f as [s|n]; cbn [wfb] in *; [now rewrite upd_length | now apply upd2_rect].
+  - now apply convert_wf.
+  - now apply convert_wf.
+Qed.
+Theorem history_readings (m : mask) H W : rectb H W m = true -> 0 < H ->
+  forall ops (f : form), wfb m H W f = true -> forallb (hop_ok m H W) ops = true ->
+  forall so, In so (run_hist zero m f ops) ->
+    snd so = native_from zero m (fst so) /\ length (fst so) = count m.
+Proof.
+  intros Hm HH. induction ops as [|o ops IH]; intros f Hf Hops so Hin; cbn [run_hist] in Hin.
+  - destruct Hin as [E|[]]. subst so. apply (obs_native_is_scatter_of_obs_slim m f H W Hm HH Hf).
+  - cbn [forallb] in Hops. apply andb_true_iff in Hops. destruct Hops as [Ho Hops].
+    destruct Hin as [E|Hin].
+    + subst so. apply (obs_native_is_scatter_of_obs_slim m f H W Hm HH Hf).
+    + apply (IH (step zero m f o)); auto. now apply step_wf.
+Qed.
+End P2.
+
+(* ---- 1-D objects read as the one-row 2-D objects *)
+Section P2_1d.
+Context {A : Type} (zero : A).
+Definition lift1 (f : @form1 A) : @form A := match f with Slim1 s => Slim s | Native1 n => Native [n] end.
+Lemma one_row_rect {B} (r : list B) : rectb 1 (length r) [r] = true.
+Proof. apply rectb_spec. split; auto. intros r' [E|[]]. now subst. Qed.
+Theorem obs_1d_is_one_row (r : list bool) (f : form1) :
+  match f with Slim1 _ => True | Native1 n => length n = length r end ->
+  obs_slim_1d zero r f = obs_slim zero [r] (lift1 f) /\ [obs_native_1d zero r f] = obs_native zero [r] (lift1 f).
+Proof.
+  intros Hf. destruct f as [s|n]; cbn [lift1].
+  - split; [reflexivity|]. cbn [obs_native_1d convert_1d to_native_1d obs_native acc_native convert to_native].
+    apply native_from_1d_is_one_row.
+  - assert (Hn : rectb 1 (length r) [n] = true) by (rewrite <- Hf; apply one_row_rect).
+    unfold obs_slim_1d, obs_native_1d, obs_slim, obs_native, acc_slim, acc_native.
+    cbn [convert_1d to_slim_1d to_native_1d convert to_slim to_native]. split; [|reflexivity].
+    rewrite (slim_from_zero_masked zero [r] [n] 1 (length r) (one_row_rect r) Hn) by lia.
+    apply slim_from_1d_is_one_row.
+Qed.
+End P2_1d.
+
+(* ---- a mask edited in place: the mask after `mask[y, x] = b` and its index lists *)
+Lemma mset_rect (m : mask) p b H W : rectb H W m = true -> rectb H W (mset m p b) = true.
+Proof.
+  intros Hm. pose proof Hm as Hm'. apply rectb_spec in Hm'. destruct Hm' as [L R]. apply rectb_spec. split.
+  - unfold mset. now rewrite upd_length.
+  - intros r Hr. unfold mset in Hr. apply in_upd in Hr. destruct Hr as [[Hl E]|Hr]; auto.
+    subst r. rewrite upd_length. apply R. now apply nth_In.
+Qed.
+Lemma mget_mset (m : mask) p b q H W :
+  rectb H W m = true -> fst p < H -> snd p < W ->
+  mget (mset m p b) q = if pair_eqb q p then b else mget m q.
+Proof.
+  intros Hm Hy Hx. pose proof Hm as Hm'. apply rectb_spec in Hm'. destruct Hm' as [L _].
+  unfold mget, mset, pair_eqb. destruct (Nat.eqb_spec (fst q) (fst p)) as [Ey|Ey]; cbn [andb].
+  - rewrite Ey. rewrite nth_upd_same by lia.
+    destruct (Nat.eqb_spec (snd q) (snd p)) as [Ex|Ex].
+    + rewrite Ex. apply nth_upd_same. rewrite (rect_row_len H W m (fst p) Hm Hy). exact Hx.
+    + apply nth_upd_other. congruence.
+  - rewrite nth_upd_other by congruence. reflexivity.
+Qed.
+Theorem indexes_after_edit (m : mask) p b H W :
+  rectb H W m = true -> 0 < H -> fst p < H -> snd p < W ->
+  native_for_slim (mset m p b) = filter (fun q => negb (if pair_eqb q p then b else mget m q)) (all_coords H W).
+Proof.
+  intros Hm HH Hy Hx. pose proof (mset_rect m p b H W Hm) as Hr.
+  rewrite (native_for_slim_is_spec _ H W Hr HH). unfold unmasked_spec.
+  rewrite (rect_width H W _ Hr HH). pose proof Hr as Hr'. apply rectb_spec in Hr'. destruct Hr' as [L _]. rewrite L.
+  apply filter_ext. intros q. now rewrite (mget_mset m p b q H W Hm Hy Hx).
+Qed.
+Lemma mstep_rect (m : mask) o H W : rectb H W m = true -> mop_ok H W o = true -> rectb H W (mstep m o) = true.
+Proof.
+  intros Hm Ho. destruct o as [y x b|m'| |]; cbn [mstep mop_ok] in *; auto.
+  - now apply mset_rect.
+  - apply rectb_spec in Hm. destruct Hm as [L R]. apply rectb_spec. split; [now rewrite map_length|].
+    intros r Hr. apply in_map_iff in Hr. destruct Hr as [r' [E Hin]]. subst r. rewrite map_length. auto.
+Qed.
+(* every reading along a mask history is the specification applied to the mask held at that moment *)
+Theorem mask_history_readings (n : zgrid) H W : 0 < H -> rectb H W n = true ->
+  forall ops (m : mask), rectb H W m = true -> forallb (mop_ok H W) ops = true ->
+  run_mhist n m ops = map (mobs n) (mstates m ops) /\
+  forall m', In m' (mstates m ops) ->
+    rectb H W m' = true /\
+    native_for_slim m' = unmasked_spec m' /\
+    mask_slim_indexes m' false = flat_filter m' false /\ mask_slim_indexes m' true = flat_filter m' true /\
+    map (fun p => fst p * W + snd p) (native_for_slim m') = mask_slim_indexes m' false /\
+    slim_from m' n = map (get2 0%Z n) (unmasked_spec m').
+Proof.
+  intros HH Hn. induction ops as [|o ops IH]; intros m Hm Hops.
+  - split; [reflexivity|]. intros m' [E|[]]. subst m'. repeat split; auto.
+    + apply (native_for_slim_is_spec m H W Hm HH).
+    + apply mask_slim_indexes_spec.
+    + apply mask_slim_indexes_spec.
+    + apply (slim_index_k_is_kth_unmasked m H W Hm).
+    + rewrite <- (native_for_slim_is_spec m H W Hm HH). apply (slim_is_rowmajor_gather 0%Z m n H W Hm Hn).
+  - cbn [forallb] in Hops. apply andb_true_iff in Hops. destruct Hops as [Ho Hops].
+    destruct (IH (mstep m o) (mstep_rect m o H W Hm Ho) Hops) as [E1 E2].
+    split; [cbn [run_mhist mstates map]; now rewrite E1|].
+    intros m' [E|Hin]; [|apply E2; exact Hin]. subst m'. repeat split; auto.
+    + apply (native_for_slim_is_spec m H W Hm HH).
+    + apply mask_slim_indexes_spec.
+    + apply mask_slim_indexes_spec.
+    + apply (slim_index_k_is_kth_unmasked m H W Hm).
+    + rewrite <- (native_for_slim_is_spec m H W Hm HH). apply (slim_is_rowmajor_gather 0%Z m n H W Hm Hn).
+Qed.
